@@ -30,7 +30,7 @@ FEAS_TOL = math.sqrt(np.finfo(float).eps)
 
 
 def budget(tier):
-    return 640 if tier == "quick" else 30000
+    return 1600 if tier == "quick" else 60000
 
 
 def fl(lo, hi):
@@ -72,7 +72,7 @@ DIST = [0.1, 1.0, 5.0, 20.0, 50.0]
 
 @st.composite
 def instances(draw):
-    fam = draw(st.sampled_from(["unc", "box", "lineq", "interval", "ball"]))
+    fam = draw(st.sampled_from(["unc", "box", "box", "lineq", "interval", "ball"]))
     n = 1 if fam == "interval" else draw(st.integers(2 if fam == "lineq" else 1, 5))
     sp = {"family": fam, "n": n, "dist": draw(st.sampled_from(DIST)), "dir": draw(direction(n))}
     if fam in ("unc", "box", "lineq"):
@@ -83,8 +83,9 @@ def instances(draw):
         sp["xs"] = [draw(fl(-3, 3)) for _ in range(n)]
         sp["pat"] = [draw(st.sampled_from(["free", "lb", "ub"])) for _ in range(n)]
         sp["mu"] = [draw(st.one_of(fl(0.1, 2.0), st.just(0.0), fl(0.1, 2.0))) for _ in range(n)]
-        sp["gap_lo"] = [draw(st.one_of(fl(0.3, 3.0), st.just("inf"))) for _ in range(n)]
-        sp["gap_hi"] = [draw(st.one_of(fl(0.3, 3.0), st.just("inf"))) for _ in range(n)]
+        # (narrow boxes make cobyqa reduce the initial radius below its default)
+        sp["gap_lo"] = [draw(st.one_of(fl(0.3, 3.0), fl(0.3, 1.0), st.just("inf"))) for _ in range(n)]
+        sp["gap_hi"] = [draw(st.one_of(fl(0.3, 3.0), fl(0.3, 1.0), st.just("inf"))) for _ in range(n)]
         sp["x0_on_bound"] = draw(st.booleans())
     elif fam == "lineq":
         m = draw(st.integers(1, n - 1))
